@@ -294,4 +294,96 @@ theorem newPacket_fields (rnd : Bytes) (c : Int) (s : Bytes) (h : rnd.length = 1
   refine ⟨rfl, this, ?_, rfl, rfl, rfl⟩
   simp [newPacket]; omega
 
+/-! ### The entropy source as an `io.Reader` (short reads) -/
+
+theorem readFull_some (lims : List Nat) (need : Nat) (src got rest : Bytes)
+    (h : readFull lims need src = some (got, rest)) :
+    got = src.take need ∧ rest = src.drop need := by
+  induction lims generalizing need src got rest with
+  | nil =>
+    cases need with
+    | zero => simp [readFull] at h; obtain ⟨rfl, rfl⟩ := h; simp
+    | succ n => simp [readFull] at h
+  | cons l ls ih =>
+    cases need with
+    | zero => simp [readFull] at h; obtain ⟨rfl, rfl⟩ := h; simp
+    | succ n =>
+      simp only [readFull] at h
+      split at h
+      · exact absurd h (by simp)
+      · rename_i hlen
+        split at h
+        · rename_i g r hrec
+          obtain ⟨hg, hr⟩ := ih _ _ _ _ hrec
+          simp only [Option.some.injEq, Prod.mk.injEq] at h
+          obtain ⟨rfl, rfl⟩ := h
+          have hn : min (max l 1) (n + 1) ≤ n + 1 := Nat.min_le_right _ _
+          refine ⟨?_, ?_⟩
+          · rw [hg]
+            have e : n + 1 = min (max l 1) (n + 1) + (n + 1 - min (max l 1) (n + 1)) := by omega
+            conv => rhs; rw [e, List.take_add]
+          · rw [hr, List.drop_drop]; congr 1; omega
+        · exact absurd h (by simp)
+
+theorem readFull_isSome (lims : List Nat) (need : Nat) (src : Bytes)
+    (hl : need ≤ lims.length) (hs : need ≤ src.length) : (readFull lims need src).isSome := by
+  induction lims generalizing need src with
+  | nil => have : need = 0 := by simpa using hl
+           subst this; simp [readFull]
+  | cons l ls ih =>
+    cases need with
+    | zero => simp [readFull]
+    | succ n =>
+      simp only [readFull]
+      have hn1 : 1 ≤ min (max l 1) (n + 1) := by omega
+      have hn : min (max l 1) (n + 1) ≤ n + 1 := Nat.min_le_right _ _
+      rw [if_neg (by omega)]
+      have := ih (n + 1 - min (max l 1) (n + 1)) (src.drop (min (max l 1) (n + 1)))
+        (by simp at hl; omega) (by simp; omega)
+      cases hr : readFull ls (n + 1 - min (max l 1) (n + 1)) (src.drop (min (max l 1) (n + 1))) with
+      | none => simp [hr] at this
+      | some v => simp
+
+theorem readFull_none_of_short (lims : List Nat) (need : Nat) (src : Bytes) (hs : src.length < need) :
+    readFull lims need src = none := by
+  cases h : readFull lims need src with
+  | none => rfl
+  | some v =>
+    obtain ⟨g, r⟩ := v
+    have := readFull_some lims need src g r h
+    -- length of got: need? derive contradiction via structure
+    exfalso
+    induction lims generalizing need src g r with
+    | nil => cases need with
+      | zero => omega
+      | succ n => simp [readFull] at h
+    | cons l ls ih =>
+      cases need with
+      | zero => omega
+      | succ n =>
+        simp only [readFull] at h
+        split at h
+        · simp at h
+        · rename_i hlen
+          split at h
+          · rename_i g' r' hrec
+            have hn1 : 1 ≤ min (max l 1) (n + 1) := by omega
+            exact ih (n + 1 - min (max l 1) (n + 1)) (src.drop (min (max l 1) (n + 1))) (by simp; omega) g' r' hrec
+              (readFull_some _ _ _ _ _ hrec)
+          · simp at h
+
+theorem newFromReader_eq (lims : List Nat) (src : Bytes) (c : Int) (s : Bytes) (hl : 17 ≤ lims.length) :
+    newFromReader lims src c s = newFrom src c s := by
+  unfold newFromReader newFrom
+  by_cases hs : src.length < 17
+  · rw [readFull_none_of_short lims 17 src hs, if_pos hs]
+  · rw [if_neg hs]
+    have h := readFull_isSome lims 17 src hl (by omega)
+    cases hr : readFull lims 17 src with
+    | none => simp [hr] at h
+    | some v =>
+      obtain ⟨g, r⟩ := v
+      obtain ⟨rfl, rfl⟩ := readFull_some lims 17 src g r hr
+      rfl
+
 end RV
